@@ -289,8 +289,10 @@ def run_threads(case, inject=False):
                 f"{'shared' if sh is not None else 'private'} argument "
                 f"objects) differs from its sequential reference "
                 f"({describe(rec)})",
-                mechanism="threads:" + ("exc:" + type(rec.exc).__name__
-                                        if rec.exc is not None else "result"),
+                mechanism="warnings_filter_race" if isinstance(
+                    rec.exc, Warning) else "threads:" + (
+                    "exc:" + type(rec.exc).__name__
+                    if rec.exc is not None else "result"),
                 spec=e2e.jsonable(specs[k]), threads=nthreads))
             if len(viols) >= 3:
                 break
